@@ -36,6 +36,11 @@ type recorder struct {
 	versionNonce uint64
 	haveVersion  bool
 	silent       bool // donor connections: no events
+	// sibling (donor) connections whose version write is kept in flight: the
+	// Write call that carries the nonce does not return before release
+	stick    bool
+	released bool
+	onNonce  func() // called once (lock held) when the version nonce is on the wire
 	lastEvent    time.Time
 }
 
@@ -173,6 +178,21 @@ func (c *memConn) Write(b []byte) (int, error) {
 		return 0, errClosed
 	}
 	r.out = append(r.out, b...)
+	if r.stick {
+		// header (24) + version payload up to and including the nonce (80)
+		if !r.haveVersion && len(r.out) >= wire.MessageHeaderSize+80 {
+			r.versionNonce = binary.LittleEndian.Uint64(r.out[wire.MessageHeaderSize+72 : wire.MessageHeaderSize+80])
+			r.haveVersion = true
+			if r.onNonce != nil {
+				r.onNonce()
+			}
+			r.cond.Broadcast()
+			for !r.released && !r.localClosed {
+				r.cond.Wait()
+			}
+		}
+		return len(b), nil
+	}
 	for len(r.out) >= wire.MessageHeaderSize {
 		plen := int(binary.LittleEndian.Uint32(r.out[16:20]))
 		total := wire.MessageHeaderSize + plen
